@@ -126,6 +126,8 @@ def specCheck (prop : String) (op res : List String) : String :=
     -- which the e2e stream compares with the implementation's solo runs)
     let bad := (hs.zip parts).filter fun (h, obs) => runE2E h != obs
     verdict bad.isEmpty ("outcome of a concurrently served RPC differs from its solo outcome (" ++ toString bad.length ++ " of " ++ toString hs.length ++ ")")
+  | "C17", ["config", h] => specConfig h res
+  | "C17", ["config_err", h] => specConfigErr h res
   | "C19", ["e2e_getpost", a, b] => specGetPost a b res
   | prop, ["e2e", h] => specE2E prop h res
   | prop, ["e2e_fresh", h] => specE2E prop h res
